@@ -26,7 +26,7 @@ def gen(rng):
     if parents and rng.random() < 0.4:
         parents = parents + [parents[0]] * rng.choice([1, 1, 3])     # repeated parent headers count as parents
     c1 = s.add({"kind": "commit", "tree": rng.choice([t1, t2]), "parents": parents, "date": rng.choice([1, 2000000000]),
-                "msg": b"M" * rng.choice([400, 900, 900]) + b"\n"})
+                "msg": rng.choice([b"M" * rng.choice([400, 900, 900]) + b"\n", b"CRLF line\r\n" * rng.choice([40, 90])])})
     c2 = s.add({"kind": "commit", "tree": t2, "parents": parents if rng.random() < 0.5 else parents[:1], "date": 5, "msg": b"W" * 900 + b"\n"})
     s.refs.append((rng.choice([b"refs/heads/aaa-first", b"refs/heads/zzz-last", b"refs/tags/mid"]), c1))
     if rng.random() < 0.5:
